@@ -6,7 +6,7 @@ import warnings
 import numpy as np
 
 from ..core import (Ctx, Violation, HarnessError, rng_for, np_rng, canon, sha_array, close)
-from ..snapshot import snap, diff as snapdiff, arrays_of
+from ..snapshot import snap, semantic_snap, diff as snapdiff, arrays_of
 
 PROPS = ("C03", "C09")
 ISOLATE = True      # process() may keep process-global state: every run starts in a forked child
@@ -452,7 +452,7 @@ def apply_op(ctx, st, op, prop):
             settings = make_settings(H, spec)
         if op.get("as_tuple"):
             records = tuple(records)                 # any sequence of recordings
-        before = [snap(r) for r in st.recs]
+        before = [semantic_snap(r) for r in st.recs]
         res, exc = None, None
         try:
             res = _process(H, records, settings)
@@ -467,7 +467,7 @@ def apply_op(ctx, st, op, prop):
             oracle_c03(ctx, st, op, [st.recs[i] for i in idx], settings, spec, res, exc)
         call = {"recs": list(idx), "s": k, "own": own, "exc": exc,
                 "rec_versions": [st.rec_version[i] for i in idx], "set_version": st.set_version[k],
-                "result": res, "snap": snap(res) if res is not None else None}
+                "result": res, "snap": semantic_snap(res) if res is not None else None}
         if ctx.wants("C09") and own and res is not None:
             no_sharing(ctx, st, res, settings, spec)
             if prev is not None:
@@ -549,7 +549,7 @@ def apply_op(ctx, st, op, prop):
         else:
             settings = make_settings(H, spec)
             settings.smoothing["operator"] = "no_such_operator"
-        before = [snap(r) for r in st.recs]
+        before = [semantic_snap(r) for r in st.recs]
         exc = None
         try:
             _process(H, records, settings)
@@ -583,7 +583,7 @@ def _digest_result(H, res):
 # ===================================================================== C09 oracles
 def frame_records(ctx, st, before, what, key):
     for i, (b, r) in enumerate(zip(before, st.recs)):
-        d = snapdiff(b, snap(r))
+        d = snapdiff(b, semantic_snap(r))
         ctx.check(d is None, "recording_changed",
                   lambda: f"{what} changed recording #{i}: {d}", key=key)
     ctx.probe("frame_condition_judged")
@@ -605,7 +605,7 @@ def no_sharing(ctx, st, res, settings, spec):
 
 def frozen_results(ctx, st, op):
     for j, (res, s0, cls) in enumerate(st.results):
-        d = snapdiff(s0, snap(res))
+        d = snapdiff(s0, semantic_snap(res))
         ctx.check(d is None, "earlier_result_changed",
                   lambda: f"result #{j} ({cls}) changed after {op['op']}"
                           f"{'(' + op.get('how', '') + ')' if op.get('how') else ''}: {d}",
